@@ -98,9 +98,7 @@ def problems(env, cfg, tier):
         out["C01.step_obs_bounds.vehicles.local_times_lower_bound"] = o.vehicles.local_times >= 0.0
         return out
 
-    # workers=2: fork pool with one fresh solver per obligation.  The single incremental (push/pop) solver used for > 40
-    # obligations is 50x slower here (float reals + a few `sat` answers: 330 s instead of 6 s).
-    step = dict(title=f"MultiCVRP.step@{cfg}", args=(state, a), requires=req, ensures=ens, workers=2,
+    step = dict(title=f"MultiCVRP.step@{cfg}", args=(state, a), requires=req, ensures=ens,
                 targets=[type(env).step, type(env)._update_state, type(env)._state_to_observation],
                 note="structural horizon 2 * num_customers (the counter starts at 1)")
 
